@@ -65,7 +65,8 @@ def dyn_need(sens, binding, name, detail):
     if name in ("fopen", "fopen64"):
         m = d.get("mode", "r")
         g = []
-        if "r" in m or "+" in m:
+        # "w+" truncates/creates: nothing that existed before can be read through it, so it is a write-kind open only
+        if "r" in m or ("a" in m and "+" in m):
             g.append(F["fs-read"])
         if "w" in m or "a" in m or "+" in m:
             g.append(F["fs-write"])
@@ -358,27 +359,20 @@ def run(ctx):
     if hx:
         singles = list(CAPS)
         tmodes = ["thread", "spawn-thread"]
-        if quick:
-            # quick tier: the file-system, all-flags and (seed-rotated) two further single-flag configurations in the calling
-            # thread, three configurations in threads started after sandboxing; the thorough tier runs every combination
-            rot = [c for c in singles if c not in ("fs-write", "fs-read")]
-            configs = [("fs-write", "same"), ("fs-read", "same"), ("all", "same"),
-                       (rot[ctx.seed % len(rot)], "same"), (rot[(ctx.seed * 5 + 3) % len(rot)], "same"),
-                       ("fs-write", tmodes[ctx.seed % 2]), ("subprocess,env", tmodes[(ctx.seed + 1) % 2]), ("all", tmodes[ctx.seed % 2])]
-        else:
-            for c in singles + ["all", "fs", "net", "ffi"]:
-                configs.append((c, "same"))
-            for c in singles + ["all"]:
-                for t in tmodes:
-                    configs.append((c, t))
+        # every capability (and :all) x (calling thread | ev/thread | ev/spawn-thread = the :n path).  Quick tier: every
+        # argument shape for the OS-facing bindings, two shapes for the rest; thorough: the full shape matrix for every
+        # binding plus the composite keywords.
+        for c in singles + ["all"] + ([] if quick else ["fs", "net", "ffi", "subprocess,env", "fs-write,fs-temp"]):
+            for t in ["same"] + tmodes:
+                configs.append((c, t))
         level = "quick" if quick else "full"
 
-        NSH = 6 if quick else 8      # the sweep mostly waits for the event loop: run more processes than cores
+        NSH = 3 if quick else 8      # the sweep mostly waits for the event loop: run more processes than cores
 
         def go(job):
             cfg, sh = job
-            return run_config(hx, cfg[0], cfg[1], level, "*", 400 if quick else 1500, cfg[0] + "-" + cfg[1], sh, NSH)
-        with cf.ThreadPoolExecutor(56) as ex:
+            return run_config(hx, cfg[0], cfg[1], level, "*", 150 if quick else 900, cfg[0] + "-" + cfg[1], sh, NSH)
+        with cf.ThreadPoolExecutor(24) as ex:
             results = list(ex.map(go, [(c, sh) for c in configs for sh in range(NSH)]))
         for res in results:
             vs, up, nc, ns = analyse(M, res, predicted)
